@@ -1,3 +1,5 @@
 -- Root of the `CaddyModel` library: every property's model, spec, lemmas and theorems.
 import CaddyModel.Util.Hex
-import CaddyModel.C18.Model
+import CaddyModel.Util.DrvMain
+import CaddyModel.C18.Props
+import CaddyModel.C18.Driver
